@@ -30,8 +30,20 @@ def program_of(evs):
     if not evs or evs[0].get("op") != "new":
         return None
     h = evs[0]
-    ops = [{k: e[k] for k in ("op", "p", "ro") if k in e} for e in evs[1:] if not e.get("audit") and e.get("op") != "hang"]
-    # objects created by fill / churn are replayed as explicit writes of the same bytes (plain class: a function of name and length)
+    ops = []
+    for e in evs[1:]:
+        if e.get("audit") or e.get("op") == "hang":
+            continue
+        if "par" in e:   # one event per object of a parallel batch -> one par operation over the same objects
+            if ops and ops[-1].get("op") == "par" and ops[-1]["_b"] == e["par"]:
+                ops[-1]["ps"].append(e["p"])
+            else:
+                ops.append({"op": "par", "t": e.get("t", 4), "ps": [e["p"]], "_b": e["par"]})
+            continue
+        ops.append({k: e[k] for k in ("op", "p", "ro") if k in e})
+    for o in ops:
+        o.pop("_b", None)
+    # objects created by fill / churn / par are replayed as explicit writes of the same bytes (plain class: a function of name and length)
     extra = [[e["p"], "plain", e["fill"]] for e in evs[1:] if e.get("op") == "write" and "fill" in e]
     return {"comp": h["comp"], "mode": h.get("mode", "none"), "compress": h.get("compress", False),
             "payloads": h["payloads"] + extra, "ops": ops}
@@ -97,6 +109,37 @@ def count_nontrivial(path):
             if '"op":"write"' in line.replace(" ", ""):
                 seen.add(hashlib.md5(line.encode()).digest())
     return len(seen)
+
+
+def run_split(progs_path, trace_path, parts):
+    """lib.run_sharded shards by program count (one shard per 200); the random programs are few but long, so split
+    them into `parts` contiguous pieces here; traces are concatenated in program order."""
+    from concurrent.futures import ThreadPoolExecutor
+    import time
+    lines = lib.read_lines(progs_path)
+    parts = max(1, min(parts, len(lines)))
+    per = (len(lines) + parts - 1) // parts
+    pieces = []
+    for i in range(parts):
+        chunk = lines[i * per:(i + 1) * per]
+        if chunk:
+            pp = f"{progs_path}.p{i}"
+            open(pp, "w").write("\n".join(chunk) + "\n")
+            pieces.append((pp, f"{trace_path}.p{i}"))
+    t = time.time()
+    with ThreadPoolExecutor(max_workers=len(pieces)) as ex:
+        infos = list(ex.map(lambda pt: lib.run_driver("drv_storage", ["--programs", pt[0], "--out", pt[1], "--timeout", 120]), pieces))
+    merged = {"wall_s": round(time.time() - t, 2)}
+    for inf in infos:
+        for k, v in inf.items():
+            if isinstance(v, int) and k != "returncode":
+                merged[k] = merged.get(k, 0) + v
+    with open(trace_path, "w") as out:
+        for pp, tp in pieces:
+            out.write(open(tp).read())
+            os.remove(tp)
+            os.remove(pp)
+    return merged
 
 
 def count_ops(ctx, info):
@@ -194,6 +237,19 @@ def log_programs(quick):
         out.append({"comp": "dyn", "mode": "none", "compress": False, "payloads": pay,
                     "ops": [{"op": "churn", "n": 640, "bucket": 7}, w, {"op": "fill", "n": 30, "bucket": 7}, ro,
                             {"op": "flush"}, {"op": "fill", "n": 30, "bucket": 7}, ro]})
+    # an object removed and written again much later: its tombstone and its new entry lie in different pages of
+    # the same bucket's log (newest must win across pages), also after reopen and after a flush
+    rm, rd = {"op": "remove", "p": "a"}, {"op": "read", "p": "a"}
+    for filler in ({"op": "fill", "n": 25, "of": "a"}, {"op": "churn", "n": 13, "of": "a"}, {"op": "fill", "n": 70, "of": "a"}):
+        out.append({"comp": "dyn", "mode": "none", "compress": False, "payloads": pay,
+                    "ops": [w, rm, filler, w, rd, ro, rd, rm, filler, w, {"op": "flush"}, rd, ro]})
+    # parallel writers: t threads x m distinct objects, barrier before every round; then everything is read back
+    # (audit), also after reopen.  Nothing here depends on timing: on a correct store every history passes.
+    for comp in ("dyn", "inst"):
+        out.append({"comp": comp, "mode": "none", "compress": comp == "inst", "payloads": pay,
+                    "ops": [w, {"op": "par", "t": 8, "m": 12}, ro, {"op": "par", "t": 8, "m": 6}, rd]})
+        out.append({"comp": comp, "mode": "none", "compress": False, "payloads": pay,
+                    "ops": [{"op": "par", "t": 8, "m": 12}, {"op": "par", "t": 3, "m": 10}, ro]})
     return out
 
 
@@ -221,7 +277,8 @@ def run(ctx):
                 ("arch", "sizes", 4, "none", False),
                 ("arch", "sizes3", 5, "none", False), ("inst", "classes", 4, "none", False), ("dyn", "classes3", 4, "none", False), ("arch", "classes3", 4, "none", True),
                 ("arch", "sizes3", 4, "zlib", True), ("arch", "sizes3", 4, "lz4", True), ("inst", "sizes3", 4, "none", True),
-                ("dyn", "fill", 3, "none", False), ("inst", "fill", 4, "none", False)]
+                ("dyn", "fill1", 4, "none", False), ("inst", "fill", 4, "none", False),
+                ("dyn", "par", 3, "none", False), ("inst", "par", 4, "none", False)]
         nrand, rlen = 150, 100
     else:
         plan = [("dyn", "sizes", 5, "none", False), ("dyn", "sizes3", 6, "none", False), ("inst", "sizes", 6, "none", False),
@@ -229,7 +286,8 @@ def run(ctx):
                 ("arch", "sizes3", 5, "lz4", True), ("inst", "sizes3", 6, "none", True),
                 ("inst", "classes", 5, "none", False), ("inst", "classes", 4, "none", True), ("dyn", "classes", 4, "none", False),
                 ("dyn", "classes3", 5, "none", False), ("arch", "classes3", 5, "none", True), ("arch", "classes3", 5, "zlib", True),
-                ("dyn", "fill", 4, "none", False), ("inst", "fill", 5, "none", True)]
+                ("dyn", "fill", 4, "none", False), ("inst", "fill", 5, "none", True),
+                ("dyn", "par", 4, "none", False), ("inst", "par", 5, "none", True)]
         nrand, rlen = 1200, 150
     model_refutations(ctx)
     totals = {"exact_reads": 0, "ok_writes": 0, "events": 0}
@@ -259,7 +317,7 @@ def run(ctx):
                        env={"VERIF_SEED": ctx.seed})
     if g.get("generated") != nrand:
         raise lib.ToolError(f"random generator produced {g.get('generated')} of {nrand} programs")
-    d = lib.run_sharded(ctx, "drv_storage", dump, trace, shards=12)
+    d = run_split(dump, trace, min(lib.NCPU, 10))
     ctx.stage("run", source="random", programs=d.get("programs"), events=d.get("events"), hangs=d.get("hangs"), wall_s=d["wall_s"])
     if d.get("programs") != nrand:
         raise lib.ToolError(f"driver executed {d.get('programs')} of {nrand} random programs")
@@ -273,11 +331,11 @@ def run(ctx):
     open(lp, "w").write("\n".join(json.dumps(p) for p in logs) + "\n")
     trace = ctx.path("trace_log.ndjson")
     d = lib.run_driver("drv_storage", ["--programs", lp, "--out", trace, "--timeout", 300])
-    ctx.stage("run", source="index update log overflow", programs=d.get("programs"), events=d.get("events"), hangs=d.get("hangs"), wall_s=d["wall_s"])
+    ctx.stage("run", source="scripted (index log, tombstone order, parallel writers)", programs=d.get("programs"), events=d.get("events"), hangs=d.get("hangs"), wall_s=d["wall_s"])
     if d.get("programs") != len(logs):
         raise lib.ToolError(f"driver executed {d.get('programs')} of {len(logs)} log programs")
     count_ops(ctx, d)
-    judge_trace(ctx, trace, "index update log overflow (> 1260 objects in one bucket)", kd, totals)
+    judge_trace(ctx, trace, "scripted: index log overflow, tombstone order, parallel writers", kd, totals)
     total_programs += len(logs)
     distinct += len(logs)
     if not ctx.quick:
@@ -290,7 +348,7 @@ def run(ctx):
         judge_trace(ctx, trace, "64 MiB remap threshold", kd, totals)
         total_programs += len(bigs)
         distinct += len(bigs)
-    never = [k for k in ("write", "read", "remove", "flush", "flushb", "reopen", "compact", "fill", "churn") if not ctx.cov.get("ops_executed", {}).get(k)]
+    never = [k for k in ("write", "read", "remove", "flush", "flushb", "reopen", "compact", "fill", "churn", "par") if not ctx.cov.get("ops_executed", {}).get(k)]
     ctx.cov["actions_never_taken"] = never
     if totals["exact_reads"] == 0 or totals["ok_writes"] == 0 or never:
         raise lib.ToolError(f"vacuous run: {totals}, operations never executed: {never}")
